@@ -270,8 +270,12 @@ func shortStack() string {
 
 // modelInput builds the s-expression (oracles options defs schema root data fuel) of a case, or "" with a
 // reason when the case is outside what the model represents.
+// lastSchemaEnc is the encoder (interner) of the last modelInput call: outputs are encoded with the same ids.
+var lastSchemaEnc *enc
+
 func modelInput(c *schemaCase, fuel int) (string, []string, string) {
 	e := newEnc()
+	lastSchemaEnc = e
 	s, err := parseSchema(c.Schema)
 	if err != nil {
 		return "", nil, "schema does not decode"
